@@ -105,6 +105,13 @@ CHECKS = {
                      "a before/after hash of the scratch directory",
                 note="trusted: independent packer vf/ref/pbo.py; undetectable corruptions (no per-entry checksum in the format) are judged for safety only",
                 technique="exhaustive enumeration of truncation points and single-byte / length-field corruptions with sanitizers, allocation limit and directory hashing as oracle"),
+    "C11": dict(level="model_checking", ref="3/C11",
+                text="explicit enumeration of run histories on one VM under a virtual clock (link-time interposed system_clock): 11 program kinds "
+                     "(loops of every kind, recursion, mutually spawning scripts, sleeping scripts, growing iteration, two terminating controls) x idle "
+                     "gaps {0, M/2, M+1, 10M} x tick sizes, history length <=2/3; every run judged for: ends within M + slack of virtual time, abort "
+                     "reported, VM empty afterwards, short run completes whatever preceded it; plus loop-cap ladder (5 caps x 7 bodies x scheduling)",
+                note="time is virtual (every clock query advances it), so the deadline arithmetic is explored deterministically; real-time behaviour of single long operator calls is out of scope",
+                technique="explicit-state exploration of run histories with an enumerated environment (virtual clock) on the real VM"),
 }
 
 PENDING_REASON = "check not built yet in this round (planned, see DESIGN.md section 3)"
